@@ -87,12 +87,11 @@ fn recover_arbitrary<const K: usize>() {
     let mut it = seeded(buf, fill, cursor, base, root_size);
     let start_abs = base + cursor;
     let r = it.try_recover();
+    kani::cover!(K < 3 || (r.is_ok() && it.verif_current_offset() == start_abs + 1), "recovered after one byte reached");
     assert!(it.verif_current_offset() >= start_abs, "C14: try_recover never moves backwards");
     assert!(it.verif_current_offset() <= start_abs + K, "C14: try_recover never moves past the end of the input");
     match &r {
-        Ok(()) => {
-            kani::cover!(K < 3 || it.verif_current_offset() == start_abs + 1, "recovered after one byte reached");
-        }
+        Ok(()) => {}
         Err(e) => {
             assert!(matches!(kind_of(e), ErrKind::Eof { .. } | ErrKind::Read), "C14: try_recover fails only with end of input or a read error");
             kani::cover!(true, "end of input reached");
